@@ -30,7 +30,7 @@ LEVEL = "proof"
 RULE = ("histories: every sequence of <= 2 steps (quick) / seeded sample of <= 4 steps (thorough) over the alphabet "
         "{target, antitarget, fix(+-gc/edge/rmask), segment none/haar/hmm/hmm-tumor/hmm-germline x processes "
         "{1,2,3,16}, segmetrics (ci/pi/sem, smoothed bootstrap), call none/threshold/clonal x filter lists, "
-        "genemetrics, breaks, bintest, metrics, export bed/vcf/seg/theta, center_all on a copy, merge, flatten, "
+        "genemetrics, breaks, bintest, metrics, export bed/vcf/seg/theta, center_all / shuffle on a copy, merge, flatten, "
         "subtract, intersection, subdivide, resize, by_arm, by_gene, squash_genes, transfer_fields, "
         "get_gene_intervals} on shared argument objects of seeded data sets, numpy+python RNG re-seeded before every "
         "step; ensure_path: 1..5 writes x pre-existing numbered files; rng_trace: every table entry x input shapes; "
@@ -259,6 +259,11 @@ def _ops():
         c.center_all(skip_low=True)
         return c
 
+    def shuffle_copy(e, p):
+        c = e["cnr"].copy()
+        order = c.shuffle()
+        return order, c
+
     def tf(ig):
         def f(e, p):
             return segmentation.transfer_fields(e["seg"].copy(), e["cnr"], ignore=e[ig])
@@ -295,6 +300,7 @@ def _ops():
         "export-seg": ("export-seg", 1, [], export_seg),
         "export-theta": ("export-theta", 1, [], lambda e, p: export.export_theta(e["seg"], e["cnr"])),
         "center_all-copy": ("center_all-copy", 1, [], center_copy),
+        "shuffle-copy": ("shuffle-copy", 1, [], shuffle_copy),
         "merge": ("merge", 1, [], lambda e, p: e["cnr"].merge(combine=e["COMB"])),
         "flatten": ("flatten", 1, [], lambda e, p: e["regions"].flatten()),
         "subtract": ("subtract", 1, [], lambda e, p: e["cnr"].subtract(e["regions"])),
@@ -334,7 +340,7 @@ BASE_OPS = ["target", "antitarget", "fix", "fix-plain", "segment-none", "segment
             "segment-hmm-tumor", "segment-hmm-germline", "segmetrics", "segmetrics-smooth", "call-none",
             "call-threshold", "call-clonal", "call-ci-cn", "call-sem", "call-ampdel", "call-cc", "genemetrics",
             "genemetrics-seg", "breaks", "bintest", "metrics", "export-bed", "export-vcf", "export-seg", "export-theta",
-            "center_all-copy", "merge", "flatten", "subtract", "intersection", "subdivide", "resize", "by_arm",
+            "center_all-copy", "shuffle-copy", "merge", "flatten", "subtract", "intersection", "subdivide", "resize", "by_arm",
             "by_gene", "by_gene-list", "by_gene-tuple", "squash_genes-list", "transfer_fields-list",
             "gene_intervals-list"]
 PAR_OPS = ["%s@p%d" % (b, p) for b in ("segment-none", "segment-haar", "segment-haar-skip") for p in (2, 3, 16)] + [
